@@ -468,6 +468,10 @@ fn tokenize(input: &str) -> Result<Vec<Token>> {
     Ok(tokens)
 }
 
+/// Limit on nested evaluation: parentheses, unary minus, function calls and variable
+/// references all recurse, so this bounds stack use whatever the input.
+const MAX_EVAL_DEPTH: usize = 100;
+
 pub struct EvalState<'a> {
     tokens: Vec<Token>,
     index: usize,
@@ -475,6 +479,8 @@ pub struct EvalState<'a> {
     // Used to check for circular variable references
     // Vec - likely to be few vars, and need stack behaviour
     checked_vars: Vec<String>,
+    // Current nesting of `primary()` calls, including those of enclosing evaluations
+    depth: usize,
 }
 
 impl<'a> EvalState<'a> {
@@ -488,6 +494,7 @@ impl<'a> EvalState<'a> {
             index: 0,
             context,
             checked_vars: Vec::from(checked_vars),
+            depth: 0,
         }
     }
 
@@ -538,6 +545,7 @@ impl<'a> EvalState<'a> {
                 Ok(ExprValue::List(Vec::new()))
             } else {
                 let mut es = EvalState::new(tokens, self.context, &self.checked_vars);
+                es.depth = self.depth;
                 let e = expr_list(&mut es)?;
                 if es.peek().is_none() {
                     Ok(e)
@@ -742,6 +750,18 @@ fn factor(eval_state: &mut EvalState) -> Result<ExprValue> {
 }
 
 fn primary(eval_state: &mut EvalState) -> Result<ExprValue> {
+    if eval_state.depth >= MAX_EVAL_DEPTH {
+        return Err(SvgdxError::ParseError(
+            "Expression nested too deeply".to_owned(),
+        ));
+    }
+    eval_state.depth += 1;
+    let result = primary_inner(eval_state);
+    eval_state.depth -= 1;
+    result
+}
+
+fn primary_inner(eval_state: &mut EvalState) -> Result<ExprValue> {
     match eval_state.next() {
         Some(Token::Number(x)) => Ok(ExprValue::Number(x)),
         Some(Token::String(s)) => Ok(ExprValue::String(s)),
